@@ -52,6 +52,8 @@ KINDS = [
     "float", "floatx", "int", "intx", "npint32", "npuint8", "npfloat32", "bool", "str", "strx", "strsent",
     "arr1", "arr2", "arrint", "arrbool", "nested", "tuple", "ragged", "ragged2", "raggedint", "raggedscalar", "raggedempty",
     "dict", "dictx", "arrnan", "arrstr", "raggednpscalar",
+    # collections whose entries differ in kind: stored under numpy's promotion (value-preserving) or refused
+    "mixnum", "mixarr", "mixnumstr", "mixboolint",
 ]
 PATTERNS = ["none", "some", "all", "first", "last", "allbutone"]
 LEVELS = ["block", "assembly", "component", "core"]
@@ -136,6 +138,14 @@ def make_collection(kind, n, pattern, seedv):
             return g.choice(fl) if g.next() % 3 == 0 else [g.choice(fl) for _ in range(g.randint(2, 3))]
         if kind == "raggednpscalar":
             return np.int32(g.choice(ints)) if g.next() % 3 == 0 else [g.choice(ints) for _ in range(g.randint(2, 3))]
+        if kind == "mixnum":
+            return g.choice(ints) if g.next() % 2 else g.choice([0.5, -2.25, 1.5, 12345.678])
+        if kind == "mixarr":
+            return np.array([g.choice(ints[:5]) for _ in range(2)]) if g.next() % 2 else np.array([g.choice([0.5, -2.25, 1.5]) for _ in range(2)])
+        if kind == "mixnumstr":
+            return g.choice([1.5, 16.0, 7]) if g.next() % 2 else g.choice(strs[:3] + ["duct.op"])
+        if kind == "mixboolint":
+            return bool(g.next() % 2) if g.next() % 2 else g.choice(ints)
         if kind == "dict":
             keys = ["U235", "PU239", "ZR", "FE"]
             return {k: g.choice(fl[2:]) for k in keys if g.next() % 2} or {"U235": 1.0}
@@ -178,9 +188,10 @@ def _kind_of(x):
     return "?"
 
 
-def same(written, got, real_kind):
+def same(written, got, real_kind, promote=False):
     """written/got are single per-object values.  Returns None if equal under the normalisations,
-    else a short reason."""
+    else a short reason.  promote: the collection mixes kinds, so an entry may come back in the
+    common numeric kind (bool -> int -> float) as long as its value is exactly the same."""
     import numpy as np
 
     if isinstance(written, np.generic):
@@ -233,7 +244,7 @@ def same(written, got, real_kind):
             return f"shape wrote {a.shape}, read {b.shape}"
         ka = "f" if a.dtype.kind == "f" else "i" if a.dtype.kind in "iu" else a.dtype.kind
         kb = "f" if b.dtype.kind == "f" else "i" if b.dtype.kind in "iu" else b.dtype.kind
-        if ka != kb and a.size:
+        if ka != kb and a.size and not (promote and ka + kb in ("bi", "bf", "if")):
             return f"numeric kind wrote {a.dtype}, read {b.dtype}"
         if a.dtype.kind == "f":
             if not np.array_equal(a, b, equal_nan=True):
@@ -244,9 +255,9 @@ def same(written, got, real_kind):
     if isinstance(got, (list, tuple, np.ndarray)) and np.asarray(got).shape == (1,):
         # "sequences come back as arrays": a scalar entry among ragged ones is stored as a
         # one-element sequence
-        return same(written, np.asarray(got).tolist()[0], real_kind)
+        return same(written, np.asarray(got).tolist()[0], real_kind, promote)
     kw, kg = _kind_of(written), _kind_of(got)
-    if kw != kg:
+    if kw != kg and not (promote and kw + kg in ("bi", "bf", "if")):
         return f"kind wrote {type(written).__name__} {written!r}, read {type(got).__name__} {got!r}"
     if written != got:
         return f"wrote {written!r}, read {got!r}"
@@ -293,7 +304,7 @@ def compare_collection(st, written, got):
             # a scalar among ragged entries: "sequences come back as arrays" does not cover turning a
             # scalar into a sequence; compared as written
             pass
-        r = same(w, g, real)
+        r = same(w, g, real, st["kind"].startswith("mix"))
         if r:
             if is_sentinel(w) and g is None:
                 r = "sentinel collision: " + r
